@@ -48,12 +48,14 @@ type IVal struct {
 	P      *ICell
 	T      []IVal
 	NonNil bool
+	Lo, Hi int64 // ivSlice: window into the backing array
 }
 
 type ICell struct {
 	V       IVal
-	Elems   map[int64]*ICell
-	N       int64 // array length
+	Elems   map[int64]*ICell // array elements
+	N       int64            // array length
+	Fields  []*ICell         // struct fields
 	Written int
 }
 
@@ -127,8 +129,39 @@ func newCell(t types.Type) *ICell {
 		}
 		return c
 	}
+	if st, ok := t.Underlying().(*types.Struct); ok {
+		for i := 0; i < st.NumFields(); i++ {
+			c.Fields = append(c.Fields, newCell(st.Field(i).Type()))
+		}
+		return c
+	}
 	c.V = zeroOf(t)
 	return c
+}
+
+func (c *ICell) aggregate() bool { return c.Elems != nil || c.Fields != nil }
+
+// copyInto copies the contents of src into dst (same shape).
+func (dst *ICell) copyFrom(src *ICell) {
+	dst.V = src.V
+	for k, e := range src.Elems {
+		if dst.Elems != nil && dst.Elems[k] != nil {
+			dst.Elems[k].copyFrom(e)
+		}
+	}
+	for i, f := range src.Fields {
+		if i < len(dst.Fields) {
+			dst.Fields[i].copyFrom(f)
+		}
+	}
+}
+
+// cellValue reads a cell: aggregates are passed by reference to the cell (readers copy on store).
+func cellValue(c *ICell) IVal {
+	if c.aggregate() {
+		return IVal{K: ivAgg, P: c}
+	}
+	return c.V
 }
 
 func truncInt(k int64, t types.Type) int64 {
@@ -183,69 +216,93 @@ func (it *Interp) globalCell(g *ssa.Global) *ICell {
 	if initFn == nil {
 		return cell
 	}
-	constVal := func(v ssa.Value) (IVal, bool) {
-		k, ok := v.(*ssa.Const)
-		if !ok {
-			return IVal{}, false
-		}
-		return it.constVal(k), true
+	it.fillFromStores(g, cell, initFn, 0)
+	return cell
+}
+
+// fillFromStores reconstructs what the initialiser stores through addr (a
+// global, an allocation, or an element/field address derived from one):
+// constants, nested composite literals, and slices of literal arrays.
+func (it *Interp) fillFromStores(addr ssa.Value, cell *ICell, in *ssa.Function, depth int) {
+	if depth > 8 || addr.Referrers() == nil && !isGlobal(addr) {
+		return
 	}
-	allocElems := func(al *ssa.Alloc, dst *ICell) {
-		for _, r := range *al.Referrers() {
-			ia, ok := r.(*ssa.IndexAddr)
-			if !ok {
-				continue
-			}
-			idx, ok := ConstInt(ia.Index)
-			if !ok {
-				continue
-			}
-			for _, rr := range *ia.Referrers() {
-				if st, ok := rr.(*ssa.Store); ok && st.Addr == ssa.Value(ia) {
-					if v, ok := constVal(st.Val); ok && dst.Elems != nil && dst.Elems[idx] != nil {
-						dst.Elems[idx].V = v
-					}
+	var refs []ssa.Instruction
+	if isGlobal(addr) {
+		AllInstrs(in, func(i ssa.Instruction) {
+			for _, op := range i.Operands(nil) {
+				if *op == addr {
+					refs = append(refs, i)
+					break
 				}
 			}
+		})
+	} else {
+		refs = *addr.Referrers()
+	}
+	for _, r := range refs {
+		switch x := r.(type) {
+		case *ssa.Store:
+			if x.Addr != addr {
+				continue
+			}
+			cell.Written++
+			it.staticValue(x.Val, cell, in, depth+1)
+		case *ssa.IndexAddr:
+			if x.X != addr || cell.Elems == nil {
+				continue
+			}
+			if idx, ok := ConstInt(x.Index); ok && cell.Elems[idx] != nil {
+				it.fillFromStores(x, cell.Elems[idx], in, depth+1)
+			}
+		case *ssa.FieldAddr:
+			if x.X != addr || x.Field >= len(cell.Fields) {
+				continue
+			}
+			it.fillFromStores(x, cell.Fields[x.Field], in, depth+1)
 		}
 	}
-	AllInstrs(initFn, func(i ssa.Instruction) {
-		st, ok := i.(*ssa.Store)
-		if !ok {
+}
+
+func isGlobal(v ssa.Value) bool { _, ok := v.(*ssa.Global); return ok }
+
+// staticValue stores the initialiser value v into cell.
+func (it *Interp) staticValue(v ssa.Value, cell *ICell, in *ssa.Function, depth int) {
+	switch x := v.(type) {
+	case *ssa.Const:
+		if !cell.aggregate() {
+			cell.V = it.constVal(x)
+		}
+	case *ssa.UnOp:
+		// *alloc: a composite literal built in a temporary
+		if al, ok := x.X.(*ssa.Alloc); ok && x.Op == token.MUL {
+			it.fillFromStores(al, cell, in, depth+1)
 			return
 		}
-		switch a := st.Addr.(type) {
-		case *ssa.Global:
-			if a != g {
-				return
-			}
-			if v, ok := constVal(st.Val); ok {
-				cell.V = v
-				return
-			}
-			if ld, ok := st.Val.(*ssa.UnOp); ok && ld.Op == token.MUL {
-				if al, ok := ld.X.(*ssa.Alloc); ok {
-					allocElems(al, cell)
-					return
-				}
-			}
-			cell.V = IVal{K: ivOpaque, S: "initialiser of " + g.Name()}
-		case *ssa.IndexAddr:
-			if a.X != ssa.Value(g) {
-				return
-			}
-			idx, ok := ConstInt(a.Index)
-			if !ok || cell.Elems == nil || cell.Elems[idx] == nil {
-				return
-			}
-			if v, ok := constVal(st.Val); ok {
-				cell.Elems[idx].V = v
-			} else {
-				cell.Elems[idx].V = IVal{K: ivOpaque, S: "element initialiser"}
-			}
+		cell.V = IVal{K: ivOpaque, S: "initialiser"}
+	case *ssa.Slice:
+		if al, ok := x.X.(*ssa.Alloc); ok && x.Low == nil && x.High == nil {
+			arr := newCell(al.Type().(*types.Pointer).Elem())
+			it.fillFromStores(al, arr, in, depth+1)
+			cell.V = IVal{K: ivSlice, P: arr, Lo: 0, Hi: arr.N, NonNil: true}
+			return
 		}
-	})
-	return cell
+		cell.V = IVal{K: ivOpaque, S: "initialiser"}
+	case *ssa.Convert, *ssa.ChangeType:
+		var inner ssa.Value
+		if c, ok := x.(*ssa.Convert); ok {
+			inner = c.X
+		} else {
+			inner = x.(*ssa.ChangeType).X
+		}
+		it.staticValue(inner, cell, in, depth+1)
+	case *ssa.MakeInterface:
+		it.staticValue(x.X, cell, in, depth+1)
+	default:
+		if !cell.aggregate() {
+			cell.V = IVal{K: ivOpaque, S: "initialiser " + v.Name()}
+		}
+	}
 }
 
 func (it *Interp) constVal(k *ssa.Const) IVal {
@@ -334,12 +391,8 @@ func (it *Interp) run(fn *ssa.Function, args []IVal, depth int) ([]IVal, error) 
 				}
 				v := get(x.Val)
 				a.P.Written++
-				if v.K == ivAgg && a.P.Elems != nil && v.P != nil {
-					for k, e := range v.P.Elems {
-						if a.P.Elems[k] != nil {
-							a.P.Elems[k].V = e.V
-						}
-					}
+				if v.K == ivAgg && a.P.aggregate() && v.P != nil {
+					a.P.copyFrom(v.P)
 				} else {
 					a.P.V = v
 				}
@@ -349,10 +402,8 @@ func (it *Interp) run(fn *ssa.Function, args []IVal, depth int) ([]IVal, error) 
 				case token.MUL:
 					if o.K != ivPtr {
 						env[x] = IVal{K: ivOpaque, S: "load through " + o.String()}
-					} else if o.P.Elems != nil {
-						env[x] = IVal{K: ivAgg, P: o.P}
 					} else {
-						env[x] = o.P.V
+						env[x] = cellValue(o.P)
 					}
 				case token.NOT:
 					if o.K == ivBool {
@@ -401,7 +452,14 @@ func (it *Interp) run(fn *ssa.Function, args []IVal, depth int) ([]IVal, error) 
 			case *ssa.IndexAddr:
 				base, idx := get(x.X), get(x.Index)
 				if (base.K == ivPtr || base.K == ivSlice) && base.P != nil && base.P.Elems != nil && idx.K == ivInt {
-					e := base.P.Elems[idx.I]
+					ix := idx.I
+					if base.K == ivSlice {
+						if ix < 0 || ix >= base.Hi-base.Lo {
+							return nil, fmt.Errorf("%s: index %d out of range", fn.Name(), ix)
+						}
+						ix += base.Lo
+					}
+					e := base.P.Elems[ix]
 					if e == nil {
 						return nil, fmt.Errorf("%s: index %d out of range", fn.Name(), idx.I)
 					}
@@ -417,7 +475,7 @@ func (it *Interp) run(fn *ssa.Function, args []IVal, depth int) ([]IVal, error) 
 					if e == nil {
 						return nil, fmt.Errorf("%s: index %d out of range", fn.Name(), idx.I)
 					}
-					env[x] = e.V
+					env[x] = cellValue(e)
 				case base.K == ivStr && idx.K == ivInt && idx.I >= 0 && idx.I < int64(len(base.S)):
 					env[x] = IInt(int64(base.S[idx.I]))
 				default:
@@ -426,8 +484,31 @@ func (it *Interp) run(fn *ssa.Function, args []IVal, depth int) ([]IVal, error) 
 			case *ssa.Slice:
 				base := get(x.X)
 				switch {
-				case base.K == ivPtr && base.P.Elems != nil && x.Low == nil && x.High == nil:
-					env[x] = IVal{K: ivSlice, P: base.P, NonNil: true}
+				case (base.K == ivPtr || base.K == ivSlice) && base.P != nil && base.P.Elems != nil:
+					lo, hi := int64(0), base.P.N
+					if base.K == ivSlice {
+						lo, hi = base.Lo, base.Hi
+					}
+					okB := true
+					if x.Low != nil {
+						l := get(x.Low)
+						okB = okB && l.K == ivInt
+						lo += l.I
+					}
+					if x.High != nil {
+						h := get(x.High)
+						okB = okB && h.K == ivInt
+						if base.K == ivSlice {
+							hi = base.Lo + h.I
+						} else {
+							hi = h.I
+						}
+					}
+					if okB && lo >= 0 && lo <= hi && hi <= base.P.N {
+						env[x] = IVal{K: ivSlice, P: base.P, Lo: lo, Hi: hi, NonNil: true}
+					} else {
+						env[x] = IVal{K: ivOpaque, S: "slice"}
+					}
 				case base.K == ivStr || base.K == ivBytes:
 					lo, hi := int64(0), int64(len(base.S))
 					okB := true
@@ -448,6 +529,20 @@ func (it *Interp) run(fn *ssa.Function, args []IVal, depth int) ([]IVal, error) 
 					}
 				default:
 					env[x] = IVal{K: ivOpaque, S: "slice"}
+				}
+			case *ssa.FieldAddr:
+				base := get(x.X)
+				if base.K == ivPtr && base.P != nil && x.Field < len(base.P.Fields) {
+					env[x] = IPtr(base.P.Fields[x.Field])
+				} else {
+					env[x] = IVal{K: ivOpaque, S: "fieldaddr"}
+				}
+			case *ssa.Field:
+				base := get(x.X)
+				if base.K == ivAgg && base.P != nil && x.Field < len(base.P.Fields) {
+					env[x] = cellValue(base.P.Fields[x.Field])
+				} else {
+					env[x] = IVal{K: ivOpaque, S: "field"}
 				}
 			case *ssa.Extract:
 				t := get(x.Tuple)
@@ -607,7 +702,7 @@ func sliceElems(v IVal) ([]IVal, bool) {
 		return nil, false
 	}
 	var out []IVal
-	for i := int64(0); i < v.P.N; i++ {
+	for i := v.Lo; i < v.Hi; i++ {
 		out = append(out, v.P.Elems[i].V)
 	}
 	return out, true
@@ -623,7 +718,9 @@ func (it *Interp) call(x *ssa.Call, get func(ssa.Value) IVal, depth int) (IVal, 
 				return IInt(int64(len(a.S))), nil
 			case ivNil:
 				return IInt(0), nil
-			case ivSlice, ivAgg:
+			case ivSlice:
+				return IInt(a.Hi - a.Lo), nil
+			case ivAgg:
 				return IInt(a.P.N), nil
 			}
 		}
